@@ -85,6 +85,7 @@ fn case_class(c: &Value) -> String {
         "run" => "interpreter+jit".into(),
         "seq" => "api-sequence".into(),
         "hlp" => "helpers".into(),
+        "res" => "fresh-stack".into(),
         x => x.into(),
     }
 }
@@ -116,6 +117,12 @@ fn compare(s: &mut Sink, twin: &mut Option<Twin>, cases: Vec<Value>) {
         for (c, l) in chunk.iter().zip(theirs.iter()) {
             let mine = transcript::eval(c);
             s.count("evaluations", 1);
+            if c["k"] == "res" && (mine.contains("unstable") || l.contains("unstable")) {
+                // a build that gives a program two different views of its fresh stack has no single
+                // answer to compare
+                s.outcome("fresh-stack-contents-unstable(not compared)", 1);
+                continue;
+            }
             if mine != *l {
                 let which = if mine.split('|').next() != l.split('|').next() { "answers-differ" } else { "jit-answers-differ" };
                 s.violation(&format!("dual/{}/{which}", case_class(c)), format!("std: {} / no_std: {}", scrub_addr(&mine[..mine.len().min(300)]), scrub_addr(&l[..l.len().min(300)])), json!({"kind":"dual","case":c}));
@@ -358,6 +365,37 @@ pub fn run(s: &mut Sink) {
             s.sample("hlp", || cases.last().cloned().unwrap_or(json!(null)));
             compare(s, &mut twin, cases);
             s.done("built-in helpers present in both builds");
+            // what a program reads from stack bytes it never wrote, after another execution on the same
+            // thread wrote them
+            let mut cases = vec![];
+            let slots: [i16; 6] = [-8, -16, -24, -256, -504, -512];
+            for wkind in 0..3u8 {
+                for rmask in 1..64u8 {
+                    let mut w: Vec<I> = isa::lddw(6, 0x1122_3344_5566_7788).to_vec();
+                    for o in slots {
+                        w.push(isa::stxdw(10, o, 6));
+                    }
+                    match wkind {
+                        0 => {}
+                        1 => w.push(isa::ldxdw(0, 10, 8)), // the writer then faults (load above the stack)
+                        _ => w.push(isa::call_helper(0x7fff_fff0)), // ... or calls an unregistered helper
+                    }
+                    w.push(isa::mov64i(0, 0));
+                    w.push(isa::EXIT);
+                    let mut r: Vec<I> = vec![isa::mov64i(0, 0)];
+                    for (k, o) in slots.iter().enumerate() {
+                        if rmask & (1 << k) != 0 {
+                            r.push(isa::ldxdw(2, 10, *o));
+                            r.push(I::new(0xaf, 0, 2, 0, 0)); // xor64 r0, r2
+                            r.push(I::new(0x27, 0, 0, 0, 3)); // mul64 r0, 3
+                        }
+                    }
+                    r.push(isa::EXIT);
+                    cases.push(json!({"k":"res","w":hex(&isa::enc(&w)),"r":hex(&isa::enc(&r))}));
+                }
+            }
+            compare(s, &mut twin, cases);
+            s.done("fresh-stack contents after an earlier execution on the same thread");
         }
     }
     // API sequences on one VM object: every VM kind, every sequence of <= 4 calls after new()
